@@ -169,6 +169,26 @@ MISSED = {
     "C18-13": "family nul-printer: one NUL-separating printer serves a sequence that contains refused results",
     "C19-13": "family F-inplace: -i with and without --front-matter, eval and eval-all: the file holds what the command prints",
     "C19-14": "family E: beginnings of format names (`js`, `ts`, `pro`, `to` ...) as unknown extensions",
+    "C01-16": "fixed shapes: what from_entries / with_entries must refuse (an entry without `value`), flatten over empty tails",
+    "C02-16": "`overwrite` law: a non-empty container replaced by null, then written below (`.cfg = null | .cfg.name = \"n\"`)",
+    "C03-15": "the document as YAML text with document-level comments (after a blank line at the end, before `---`)",
+    "C03-16": "predicates with several answers per element (`select(.tags[] | test(..))`), answer counts that sum to the number of candidates",
+    "C04-15": "string keys that look like numbers written another way (`007`, `0x1F`, `1_000`, `+5`)",
+    "C04-16": "JSON decoder variant (nulls inside sequences under the d flag)",
+    "C05-15": "global (URI) tags written verbatim (`!<tag:example.com,2000:foo>`)",
+    "C05-16": "byte-level variant: the whole marker-free document shifted four columns to the right",
+    "C06-16": "top-level strings printed raw and NUL separated (-0): line feeds and carriage returns at their ends included",
+    "C07-15": "line family: identifiers of 64-bit size differing in the last digit, as keys (`+=` of a map) and as elements (`-=`)",
+    "C07-16": "line family: a one-star pattern next to a shorter key its prefix and suffix would cover when overlapping",
+    "C08-15": "anchored family: scalars with a tag of the user's own under to_string / sort_by(to_string) / select",
+    "C09-16": "comments that end in a backslash",
+    "C11-15": "corpus: expressions that evaluate themselves inside an operand (`eval(.a) + 1`, `[eval(.c)]`)",
+    "C15-16": "date-like strings the pinned tree does not read as instants (`2021-1-10`, `2021-3-04 9:30:00`)",
+    "C16-15": "form: the sequence comes out of load() of a multi-document file",
+    "C16-16": "`parent | parent` compared by value with the container two steps up the path",
+    "C17-16": "-o=shell of a re-arranged document (reversed, sliced, doubled, filtered): names as after a round trip through JSON",
+    "C18-15": "TOML entries whose tables share names (array of tables / plain table path) served by one decoder",
+    "C19-16": "family F-inplace with the temporary on another file system and results shorter than the file",
 }
 REGRESSED = {
     "C11-1": "caught when delivered (4 violation lines), lost when the generator grew (0 of 40 k cases), caught again after reversed slices were made denser and the quick tier raised to 100 k cases",
@@ -207,7 +227,7 @@ for name in sorted(os.listdir(src)):
     for f in os.listdir(d):
         if f in ("patch.diff", "demo.sh") or f.endswith("_test.go"):
             shutil.copy(os.path.join(d, f), os.path.join(out, f))
-    rnd = {"1": 1, "2": 1, "3": 2, "4": 2, "5": 3, "6": 3, "7": 4, "8": 4, "9": 5, "10": 5, "11": 6, "12": 6, "13": 7, "14": 7}[name.split("-")[1]]
+    rnd = {"1": 1, "2": 1, "3": 2, "4": 2, "5": 3, "6": 3, "7": 4, "8": 4, "9": 5, "10": 5, "11": 6, "12": 6, "13": 7, "14": 7, "15": 8, "16": 8}[name.split("-")[1]]
     new = {
         "id": name,
         "property": meta.get("property", name[:3]),
